@@ -1,6 +1,7 @@
 package transports
 
 import (
+	"bytes"
 	"compress/gzip"
 	"compress/zlib"
 	"errors"
@@ -15,6 +16,7 @@ import (
 	"github.com/andybalholm/brotli"
 	"github.com/klauspost/compress/zstd"
 	"github.com/zishang520/engine.io-go-parser/packet"
+	"github.com/zishang520/engine.io-go-parser/parser"
 	"github.com/zishang520/engine.io/v2/events"
 	"github.com/zishang520/engine.io/v2/log"
 	"github.com/zishang520/engine.io/v2/types"
@@ -201,7 +203,7 @@ func (p *polling) onDataRequest(ctx *types.HttpContext) {
 func (p *polling) OnData(data types.BufferInterface) {
 	polling_log.Debug(`received "%s"`, data)
 
-	packets, _ := p.Parser().DecodePayload(data)
+	packets, _ := p.decodePayload(data)
 	for _, packetData := range packets {
 		if packet.CLOSE == packetData.Type {
 			polling_log.Debug("got xhr close packet")
@@ -211,6 +213,30 @@ func (p *polling) OnData(data types.BufferInterface) {
 
 		p.OnPacket(packetData)
 	}
+}
+
+// Decodes a payload. A revision-4 payload is cut into its packets here: the
+// parser does it with a bufio.Scanner, whose token limit (64 KiB) is far below
+// maxHttpBufferSize, so that one larger packet made the whole payload vanish.
+func (p *polling) decodePayload(data types.BufferInterface) (packets []*packet.Packet, _ error) {
+	if p.Protocol() != 4 {
+		return p.Parser().DecodePayload(data)
+	}
+	encoded := data.Bytes()
+	for len(encoded) > 0 {
+		chunk := encoded
+		if i := bytes.IndexByte(encoded, parser.SEPARATOR); i >= 0 {
+			chunk, encoded = encoded[:i], encoded[i+1:]
+		} else {
+			encoded = nil
+		}
+		packetData, err := p.Parser().DecodePacket(types.NewStringBuffer(chunk))
+		if err != nil {
+			return packets, err
+		}
+		packets = append(packets, packetData)
+	}
+	return packets, nil
 }
 
 // Overrides onClose.
